@@ -33,8 +33,13 @@ func C04(c *Ctx) {
 	c.Harnesses = append(c.Harnesses, "harness/LALR/zz_verif_resolve.go:VerifResolveCell", "harness/gen/ref.go.txt:VerifExpr")
 	c.RunSym(SymJob{Name: "resolve cell", Eng: eng, PkgPath: RepoModule + "/LALR", Entry: "VerifResolveCell",
 		Replay: ReplaySpec{Kind: "repo", PkgDirs: []string{"LALR"}},
-		Need:   []string{"shift/reduce", "reduce/reduce", "equal-left", "equal-right", "equal-nonassoc", "sr-default", "rr-default"}})
+		Need:   []string{"shift/reduce", "reduce/reduce", "equal-left", "equal-right", "equal-nonassoc", "sr-default", "rr-default", "rr-both-prec"}})
 	c.MarkDistinct("resolve-cell")
+	c.Harnesses = append(c.Harnesses, "harness/LALR/zz_verif_resolve.go:VerifResolveCell3")
+	c.RunSym(SymJob{Name: "resolve cell, three candidates", Eng: eng, PkgPath: RepoModule + "/LALR", Entry: "VerifResolveCell3",
+		Replay: ReplaySpec{Kind: "repo", PkgDirs: []string{"LALR"}},
+		Need:   []string{"three-first-rule", "three-shift", "three-open"}})
+	c.Bound("U: every cell with a shift and two reductions in each of the six candidate orders, same ranges; decided where one candidate beats both others pairwise (otherwise outside the claim)")
 	c.Bound("U: every pair (shift/reduce or reduce/reduce, either order) with precedence levels in {-1,1,2,3} and associativity in {left,right,nonassoc} for the token and both rules")
 	c.Assumptions = append(c.Assumptions, "representation invariant: symbols of one precedence level share one associativity; a symbol without precedence has the default NONE")
 
